@@ -174,6 +174,9 @@ struct Obs {
     outline: u64,
     /// glyph_metrics advance width + left side bearing over all sizes × locations
     metrics: u64,
+    /// glyph_metrics advance width alone (so that an advance defect and a side-bearing defect get
+    /// different identities)
+    advance: u64,
     /// some draw produced at least one pen command
     nonempty: bool,
     /// every draw returned Ok (false ⇒ the reference itself cannot draw the glyph; not compared)
@@ -214,13 +217,20 @@ impl<'a> Observer<'a> {
         let g = GlyphId::new(gid);
         let mut ho = Fnv::new();
         let mut hm = Fnv::new();
+        let mut ha = Fnv::new();
         let mut nonempty = false;
         let mut ok = true;
         let glyph = self.outlines.get(g);
         for (s, loc, gm) in &self.grid {
             match gm.advance_width(g) {
-                Some(a) => hm.u64(a.to_bits() as u64),
-                None => hm.u64(0xFFFF_FFFF_0000),
+                Some(a) => {
+                    hm.u64(a.to_bits() as u64);
+                    ha.u64(a.to_bits() as u64)
+                }
+                None => {
+                    hm.u64(0xFFFF_FFFF_0000);
+                    ha.u64(0xFFFF_FFFF_0000)
+                }
             }
             match gm.left_side_bearing(g) {
                 Some(a) => hm.u64(a.to_bits() as u64),
@@ -257,6 +267,7 @@ impl<'a> Observer<'a> {
         Obs {
             outline: ho.finish(),
             metrics: hm.finish(),
+            advance: ha.finish(),
             nonempty,
             ok,
         }
@@ -320,6 +331,31 @@ fn describe_diff(
     "digests differ but no textual difference found".into()
 }
 
+/// left side bearings equal at every size × location
+fn lsb_equal(orig: &FontRef, o: u32, sub: &FontRef, n: u32, locs: &[Vec<F2Dot14>]) -> bool {
+    SIZES.iter().all(|s| {
+        locs.iter().all(|l| {
+            let lr = LocationRef::new(l);
+            orig.glyph_metrics(size_of(*s), lr).left_side_bearing(GlyphId::new(o)).map(f32::to_bits)
+                == sub.glyph_metrics(size_of(*s), lr).left_side_bearing(GlyphId::new(n)).map(f32::to_bits)
+        })
+    })
+}
+
+/// unhinted pen streams equal at every size × location (the loader's advance is not looked at)
+fn streams_equal(orig: &FontRef, o: u32, sub: &FontRef, n: u32, locs: &[Vec<F2Dot14>]) -> bool {
+    SIZES.iter().all(|s| {
+        locs.iter().all(|l| {
+            let lr = LocationRef::new(l);
+            let mut pa = TextPen::default();
+            let mut pb = TextPen::default();
+            let ra = orig.outline_glyphs().get(GlyphId::new(o)).map(|g| g.draw(DrawSettings::unhinted(size_of(*s), lr), &mut pa).is_ok());
+            let rb = sub.outline_glyphs().get(GlyphId::new(n)).map(|g| g.draw(DrawSettings::unhinted(size_of(*s), lr), &mut pb).is_ok());
+            ra == rb && pa.0 == pb.0
+        })
+    })
+}
+
 // ---------------------------------------------------------------------------------------------
 // per-font reference information
 // ---------------------------------------------------------------------------------------------
@@ -343,6 +379,9 @@ struct FontInfo {
     bch: Vec<u32>,
     tiny: bool,
     colr: bool,
+    /// glyphs grouped by their HVAR advance delta-set index (outer << 16 | inner), classes in ascending
+    /// index order; empty when the font has no HVAR advance index map
+    hvar_classes: Vec<BTreeSet<u32>>,
     /// seams of adjacent cmap format-12 groups: (last code of a group, first code of the next)
     seams: Vec<(u32, u32)>,
     /// cmap format 14: (character, variation selector, Some(glyph) for a non-default mapping / None for
@@ -540,6 +579,22 @@ fn load_font(name: String, bytes: Vec<u8>, index: u32, tier: Tier) -> Option<Fon
         bch: vec![],
         tiny: false,
         colr: font.colr().is_ok(),
+        hvar_classes: {
+            let mut by_index: BTreeMap<u32, BTreeSet<u32>> = BTreeMap::new();
+            if let Ok(hvar) = font.hvar() {
+                if let Some(Ok(map)) = hvar.advance_width_mapping() {
+                    for g in 0..num_glyphs {
+                        if let Ok(ix) = map.get(g) {
+                            by_index
+                                .entry(((ix.outer as u32) << 16) | ix.inner as u32)
+                                .or_default()
+                                .insert(g);
+                        }
+                    }
+                }
+            }
+            by_index.into_values().collect()
+        },
         seams,
         variants: font
             .charmap()
@@ -866,6 +921,54 @@ fn requests_for(fi: &FontInfo, tier: Tier) -> Vec<Planned> {
                     flags: vec![0, F_RETAIN_GIDS],
                     resubset: true,
                 });
+            }
+        }
+    }
+    // HVAR delta-set class sweep: the subset's advance index map is trimmed, re-encoded and written over
+    // serializer scratch space; whether its last entries are right depends on which delta-set class the
+    // highest kept glyph belongs to and on the NUMBER (and parity) of kept glyphs. For each of the three
+    // classes with the smallest delta-set index: a top glyph g of that class (its highest member, and its
+    // lowest member that has 40 eligible glyphs below it), requested by character when it has one and
+    // by id otherwise, together with the first n simple glyphs of OTHER classes below g, for every n in
+    // 14..=40.
+    if !fi.hvar_classes.is_empty() {
+        for class in fi.hvar_classes.iter().take(3) {
+            let eligible = |g: u32| -> Vec<u32> {
+                (1..g)
+                    .filter(|x| !class.contains(x) && fi.comps[*x as usize].is_empty())
+                    .collect()
+            };
+            let mut tops: Vec<u32> = vec![];
+            if let Some(hi) = class.iter().next_back() {
+                tops.push(*hi);
+            }
+            if let Some(lo) = class.iter().find(|g| eligible(**g).len() >= 40) {
+                if !tops.contains(lo) {
+                    tops.push(*lo);
+                }
+            }
+            for g in tops {
+                let lower = eligible(g);
+                let ch = fi.cmap.iter().find(|(_, t)| **t == g).map(|(c, _)| *c);
+                for n in 14..=40usize {
+                    if lower.len() < n {
+                        break;
+                    }
+                    let mut gids: Vec<u32> = lower[..n].to_vec();
+                    let mut unicodes = vec![];
+                    match ch {
+                        Some(c) if use_chars => unicodes.push(c),
+                        _ => gids.push(g),
+                    }
+                    let r = Request { gids, unicodes };
+                    if seen.insert(r.clone()) {
+                        out.push(Planned {
+                            req: r,
+                            flags: vec![0, F_NO_HINTING | F_NOTDEF_OUTLINE],
+                            resubset: true,
+                        });
+                    }
+                }
             }
         }
     }
@@ -1382,10 +1485,27 @@ fn verify(fi: &FontInfo, req: &Request, flags: u16, out: &[u8]) -> Result<Outcom
                 pairs.entry((g, n)).or_insert(if req_gids.contains(&g) || g == 0 { "glyph requested by id" } else { "component of a glyph requested by id" });
                 claimed.insert(n);
             }
-            None => viol!(
-                if req_gids.contains(&g) || g == 0 { "requested glyph has no image" } else { "component of a requested glyph has no image" },
-                "no glyph of the subset ({sub_n} glyphs) has the observations of original glyph {g}"
-            ),
+            None => {
+                // is there a glyph that differs from the original one in nothing but the advance?
+                let oo = fi.obs[g as usize];
+                let advance_only = (0..sub_n).any(|n| {
+                    let so = obs_of(n, &mut sub_obs);
+                    so.advance != oo.advance && {
+                        // same outline stream apart from the loader's advance cannot be told from the
+                        // digest, so compare the side bearings through a fresh look at the two fonts
+                        describe_diff(&orig, g, &sub, n, &fi.locs, false).starts_with("advance")
+                            && lsb_equal(&orig, g, &sub, n, &fi.locs)
+                            && streams_equal(&orig, g, &sub, n, &fi.locs)
+                    }
+                });
+                let base = if req_gids.contains(&g) || g == 0 {
+                    "requested glyph has no image"
+                } else {
+                    "component of a requested glyph has no image"
+                };
+                let class = if advance_only { format!("{base} with the same advance") } else { base.to_string() };
+                viol!(class, "no glyph of the subset ({sub_n} glyphs) has the observations of original glyph {g}");
+            }
         }
     }
 
@@ -1420,7 +1540,13 @@ fn verify(fi: &FontInfo, req: &Request, flags: u16, out: &[u8]) -> Result<Outcom
         let so = obs_of(n, &mut sub_obs);
         h.u64(so.metrics);
         if oo.metrics != so.metrics {
-            let class = format!("{prov}: advance or side bearing differs");
+            // an advance difference gets its own class; the older class name is kept for the case in
+            // which only the side bearing differs (known findings are matched on it)
+            let class = if oo.advance != so.advance {
+                format!("{prov}: advance differs")
+            } else {
+                format!("{prov}: advance or side bearing differs")
+            };
             let d = if first_time(&fi.name, &class) {
                 describe_diff(&orig, o, &sub, n, &fi.locs, false)
             } else {
@@ -1899,7 +2025,7 @@ fn body(run: &Run, replay: Option<&Value>) {
         font_rows.push(json!({
             "font": fi.name, "glyphs": fi.num_glyphs, "chars": fi.cmap.len(), "axes": fi.axes, "colr": fi.colr,
             "long_metrics": fi.num_long_metrics, "composites": fi.comps.iter().filter(|c| !c.is_empty()).count(),
-            "tiny_all_subsets": fi.tiny, "variation_sequences": fi.variants.len(), "cmap12_adjacent_group_seams_used": fi.seams.len(), "boundary_gids": fi.bgl, "boundary_chars": fi.bch,
+            "tiny_all_subsets": fi.tiny, "variation_sequences": fi.variants.len(), "cmap12_adjacent_group_seams_used": fi.seams.len(), "hvar_advance_delta_set_classes": fi.hvar_classes.len(), "boundary_gids": fi.bgl, "boundary_chars": fi.bch,
             "requests": reqs.len(), "cases": reqs.iter().map(|p| p.flags.len()).sum::<usize>(),
             "ref_draw_errors": fi.obs.iter().filter(|o| !o.ok).count(),
             "huge_cmap_reduced_space": fi.huge_cmap, "nonconforming_cmap_no_char_requests": fi.nonconforming_cmap,
